@@ -83,6 +83,10 @@ pub fn arg_bytes() -> BoxedStrategy<Vec<u8>> {
         2 => prop::collection::vec(interesting_byte(), 1..12),
         1 => utf8_text().prop_map(|mut v| { v.push(0xf8); v }),
         1 => utf8_text().prop_map(|mut v| { v.extend_from_slice(b"  "); v }),
+        // arguments that *begin* with a Unicode white-space character: only leading blanks
+        // (space / tab) may be stripped, these are part of the argument
+        2 => (prop::sample::select(vec!["\u{3000}", "\u{a0}", "\u{2003}", "\u{2028}", "\u{85}", "\u{1680}", "\u{feff}", "\u{200b}"]), prop::option::of(utf8_text()))
+            .prop_map(|(w, rest)| { let mut v = w.as_bytes().to_vec(); if let Some(r) = rest { v.extend_from_slice(&r); } v }),
     ]
     .boxed()
 }
@@ -292,7 +296,7 @@ pub fn property() -> Property {
             "documents",
             "generated packing lists, line model + whole-document entry list",
             doc_strategy,
-            |t| t.pick(30_000, 1_500_000),
+            |t| t.pick(100_000, 1_500_000),
             check_doc,
         ), crate::fuzz::replay_stream(),
         ],
